@@ -16,7 +16,7 @@ EXPLANATION = ('(R1) the schedule variable has exactly one update, kT <- kT * se
                'factor^L = finish/kt_start).')
 
 
-def run(ctx):
+def _run_rules(ctx):
     rep, f = ctx.rep, ctx.facts
     rep.trust('pk/sym.py, pk/poly.py; RangeInclusive::new(lo, hi) yields hi-lo+1 items')
     try:
@@ -197,3 +197,13 @@ def run(ctx):
     # ---- R3 a zero temperature stays zero (same abstract model as C05.R1/R2) ------------------------------
     from .C05 import zero_stays_zero
     zero_stays_zero(ctx, oa, fams, bb, kt_l, 'R3', 'R3', key_prefix='zero-stays-zero:')
+
+
+def run(ctx):
+    _run_rules(ctx)
+    # R4: setter fidelity of the builder (the requested schedule is the one handed to build())
+    from .common import builder_setters
+    builder_setters(ctx, 'R4', ['kt_start', 'kt_finish', 'kt_ratio'])
+    from .common import import_obligations
+    # the scheduled temperature is the one the acceptance probability is evaluated at (C07.R3)
+    import_obligations(ctx, 'C07', 'R5', only_rules={'R3'}, floor=1)
